@@ -6,7 +6,7 @@ variable {σ α : Type} [DecidableEq σ] [LE α] [DecidableLE α] [Mul α]
 def ids (l : List (Order σ α)) : List Nat := l.map (fun o => o.id.getD 0)
 
 /-- the admission loop of `tick` -/
-def admit (b : Book σ α) (adm : List (Order σ α)) : Book σ α × List (Order σ α) :=
+def admitAll (b : Book σ α) (adm : List (Order σ α)) : Book σ α × List (Order σ α) :=
   adm.foldl (fun (acc : Book σ α × List (Order σ α)) o =>
       let r := acc.1.insert o; (r.1, acc.2 ++ [r.2])) (b, [])
 
@@ -46,7 +46,7 @@ def step (s : Uist σ α) (g : Ghost) : Op σ α → Uist σ α × Ghost
      if id ∈ ids s.book.inner then { g with cancelled := g.cancelled ++ [id] } else g)
   | .tick quotes adm =>
     let e := s.book.execute quotes
-    let a := admit e.1 adm
+    let a := admitAll e.1 adm
     ({ book := a.1, log := s.log ++ e.2, buffer := [] },
      { g with filled := g.filled ++ ids (s.book.inner.filter (fillsOn quotes)) })
 
@@ -124,8 +124,8 @@ theorem step_conserved (s : Uist σ α) (g : Ghost) (op : Op σ α) (h : Conserv
     obtain ⟨a1, a2, _, a4⟩ := admit_spec adm (s.book.execute quotes).1 []
     refine ⟨a4 hinv1, ?_⟩
     show (g.filled ++ ids (s.book.inner.filter (fillsOn quotes)) ++ g.cancelled ++
-      ids (admit (s.book.execute quotes).1 adm).1.inner).Perm (List.range (admit (s.book.execute quotes).1 adm).1.last)
-    unfold admit
+      ids (admitAll (s.book.execute quotes).1 adm).1.inner).Perm (List.range (admitAll (s.book.execute quotes).1 adm).1.last)
+    unfold admitAll
     rw [a1, a2, e1, e3, List.range_eq_range', ← List.range'_append_1 (s := 0) (m := s.book.last) (n := adm.length)]
     simp only [Nat.zero_add, ← List.append_assoc]
     refine List.Perm.append_right _ ?_
